@@ -8,6 +8,7 @@ import (
 	"go/printer"
 	"go/token"
 	"go/types"
+	"os"
 	"sort"
 	"strings"
 
@@ -32,6 +33,8 @@ type Obl struct {
 	trivial bool
 }
 
+var dumpN int
+
 type unsupported struct{ msg string }
 
 type Exit struct {
@@ -49,6 +52,7 @@ type loopFrame struct {
 	label    string
 	memHavoc map[string][]string
 	memSeen  map[string]bool
+	seenName string
 	pre      *State
 }
 
@@ -525,6 +529,30 @@ func (fx *FuncCtx) ordinal(n ast.Node) int {
 	return fx.nodeOrd[n]
 }
 
+// obligeSplit emits one obligation per top-level conjunct of the goal (smaller
+// queries, and a failure names the conjunct).
+func (fx *FuncCtx) obligeSplit(st *State, kind string, goal Term, node ast.Node, what string) {
+	if !strings.HasPrefix(goal.S, "(and ") || len(goal.S) < 400 {
+		fx.oblige(st, kind, goal, node, what)
+		return
+	}
+	var parts []string
+	var flat func(n *sx)
+	flat = func(n *sx) {
+		if n.isApp("and") {
+			for _, k := range n.kids[1:] {
+				flat(k)
+			}
+			return
+		}
+		parts = append(parts, n.String())
+	}
+	flat(parseSx(goal.S))
+	for i, p := range parts {
+		fx.oblige(st, kind, Term{p, SBool}, node, fmt.Sprintf("%s  (conjunct %d/%d)", what, i+1, len(parts)))
+	}
+}
+
 func (fx *FuncCtx) obligeKind(st *State, kind string, goal Term, node ast.Node, what string) {
 	fx.oblige(st, kind, goal, node, what)
 }
@@ -559,6 +587,11 @@ func (fx *FuncCtx) oblige(st *State, kind string, goal Term, node ast.Node, what
 		o.Backend = "syntactic"
 	} else {
 		o.query = fx.buildQuery(st.hypTerms(), goal)
+		if d := os.Getenv("GOVC_DUMP"); d != "" && strings.Contains(name, d) {
+			dumpN++
+			os.WriteFile(fmt.Sprintf("/tmp/govc-dump-%d.smt2", dumpN), []byte(o.query+"(check-sat)\n"), 0o644)
+			fmt.Printf("dumped %s -> /tmp/govc-dump-%d.smt2\n", name, dumpN)
+		}
 	}
 	fx.obls = append(fx.obls, o)
 }
